@@ -270,6 +270,8 @@ func EscAttrU(s string, lo, hi int, ent bool) bseq {
 //@     invariant[C13] !wfailed(w) && wonly(w)
 //@     invariant[C07] wout(w) == cat(old(wout(w)), EscAttrU(s, 0, last, escapeEntities))
 //@     invariant[C07] EscAttrU(s, last, i, escapeEntities) == sub(s, last, i)
+//@     invariant[C06] wout(w) == cat(old(wout(w)), EscAttrU(s, 0, last, escapeEntities))
+//@     invariant[C06] EscAttrU(s, last, i, escapeEntities) == sub(s, last, i)
 //@     split 0, last, i+1; last, i, i+1
 //@     cases s[i] == '<'; s[i] == '>'; s[i] == '&'; s[i] == '\t'; s[i] == '\n'; s[i] == '\r'; s[i] == '\x0C'; s[i] == ' '; s[i] == '"'; s[i] == '\''; s[i] == '='; s[i] == '`'
 //@     cases last == i
